@@ -70,8 +70,13 @@ fn corrupt(v: &mut Val, rng: &mut Rng, depth: usize) -> bool {
 		}
 		_ => {}
 	}
-	*v = match v {
-		Val::Str(_) => Val::Duration(1, 2, 3),
+	// a sub-value of another kind, shown to the serializer in its natural shape (the crate then
+	// detects the mismatch itself, e.g. while it builds a tuple / struct / seq serializer)
+	*v = match (&*v, rng.below(4)) {
+		(Val::Str(_), _) => Val::Duration(1, 2, 3),
+		(_, 0) => Val::Duration(4, 5, 6),
+		(_, 1) => Val::Array(vec![Val::Int(1), Val::Int(2)]),
+		(_, 2) => Val::Record(vec![Val::Int(1)]),
 		_ => Val::Str("does not fit here".into()),
 	};
 	true
@@ -81,10 +86,13 @@ fn pres_for(rng: &mut Rng, allow_slow: bool) -> Pres {
 	let mut p = Pres::random(rng);
 	p.field_order = *rng.pick(&[FieldOrder::Shuffled, FieldOrder::Reversed, FieldOrder::Shuffled, FieldOrder::Schema]);
 	p.record_as = *rng.pick(&[RecordAs::Struct, RecordAs::Map, RecordAs::MapSplitKeyValue]);
-	p.bytes_as_seq = allow_slow && rng.chance(2, 3);
+	// byte sequences element by element: accepted only with the knob on; with it off the same
+	// presentation must be refused by a fresh AND by a reused configuration
+	p.bytes_as_seq = if allow_slow { rng.chance(2, 3) } else { rng.chance(1, 3) };
 	if p.bytes_as_seq {
 		p.exact_len_hint = rng.chance(1, 3);
 	}
+	p.seq_as_tuple = rng.chance(1, 3);
 	p.omit_null_fields = *rng.pick(&[0, 4]);
 	p
 }
